@@ -78,6 +78,7 @@ def extract(root='/repo', std='c++14', scratch=None, extra_tus=()):
         from . import normalise
         prog.inlined = normalise.inline_local_helpers(prog)
         prog.range_loops = normalise.canonical_range_for(prog)
+        prog.aliases = normalise.resolve_reference_aliases(prog)
         return prog
     finally:
         if own:
